@@ -9,6 +9,7 @@ package mon
 
 import (
 	"fmt"
+	"math/rand"
 	"net/http"
 	"os"
 	"path/filepath"
@@ -215,6 +216,17 @@ func c09one(r *core.Recorder, w *c09world, o *rig.Origin, c c09case) {
 			}
 		}
 		w.hookMu.Unlock()
+	case "cache-files-removed-behind-the-cache":
+		// the entry is known to the index but its file is gone from the directory (tmp cleaner, operator)
+		if !prep() {
+			r.NotJudged("preparation-failed")
+			return
+		}
+		ents, _ := os.ReadDir(dir)
+		for _, e := range ents {
+			os.Remove(filepath.Join(dir, e.Name()))
+		}
+		sequence = append(sequence, rig.Req{Target: target, Timeout: 10 * time.Second})
 	case "dir-replaced-by-file":
 		os.RemoveAll(dir)
 		os.WriteFile(dir, []byte("not a directory"), 0o644)
@@ -332,9 +344,10 @@ func c09Run(b core.Batch, r *core.Recorder) {
 	shards := []int{1, 2, 3, 1024}
 	sizes := []int{0, 1, 1024, 40000}
 	n := 0
+	idTag := ""
 	emit := func(c c09case) {
 		n++
-		c.ID = fmt.Sprintf("%s-%d", mode, n)
+		c.ID = fmt.Sprintf("%s%s-%d", mode, idTag, n)
 		c.Mode = mode
 		if !r.Case(c.ID, c) {
 			return
@@ -345,6 +358,9 @@ func c09Run(b core.Batch, r *core.Recorder) {
 		}
 	}
 	part := b.Str("part", "config")
+	if part == "random" {
+		idTag = fmt.Sprintf("-r%d", b.Int("sub", 0))
+	}
 	switch part {
 	case "config":
 		for _, be := range backends {
@@ -371,9 +387,44 @@ func c09Run(b core.Batch, r *core.Recorder) {
 				}
 			}
 		}
+	case "random":
+		// seeded sample of the whole product with arbitrary sizes, shard counts and failure points
+		rng := rand.New(rand.NewSource(b.Seed*7919 + int64(len(mode)) + int64(b.Int("sub", 0))*104729))
+		faults := []string{"empty-or-plain", "cache-full-tiny-limit", "cache-full-pinned", "budget-zero", "vanish-during-revalidation", "vanish-before-streaming", "vanish-in-handover",
+			"overwrite-during-read", "leader-hangs-up-cold", "leader-hangs-up-stale", "refreshed-between-scan-and-removal", "dir-replaced-by-file", "dir-removed", "dir-readonly",
+			"cache-files-removed-behind-the-cache", "write-fails-after-n-bytes", "write-fails-after-n-bytes", "write-fails-after-n-bytes"}
+		for i := 0; i < b.Int("count", 60); i++ {
+			c := c09case{Fault: faults[rng.Intn(len(faults))], Backend: backends[rng.Intn(2)], Shards: []int{1, 2, 3, 4, 5, 7, 8, 16, 61, 1024}[rng.Intn(10)]}
+			switch rng.Intn(5) {
+			case 0:
+				c.Size = rng.Intn(3)
+			case 1:
+				c.Size = 8 + rng.Intn(600)
+			case 2:
+				c.Size = 4000 + rng.Intn(200) // around the 4 KiB buffer size
+			case 3:
+				c.Size = 32700 + rng.Intn(200) // around the 32 KiB copy buffer
+			default:
+				c.Size = rng.Intn(200000)
+			}
+			switch c.Fault {
+			case "budget-zero":
+				c.Backend = "memory"
+			case "dir-replaced-by-file", "dir-removed", "dir-readonly", "cache-files-removed-behind-the-cache":
+				c.Backend = "file"
+			case "write-fails-after-n-bytes":
+				c.Backend = "file"
+				c.N = rng.Intn(c.Size + 1)
+			case "cache-full-pinned":
+				c.Size = max(c.Size, 400)
+			case "cache-full-tiny-limit":
+				c.Size = max(c.Size, 2)
+			}
+			emit(c)
+		}
 	case "dir":
 		for _, sz := range []int{1, 1024, 40000} {
-			for _, f := range []string{"dir-replaced-by-file", "dir-removed", "dir-readonly"} {
+			for _, f := range []string{"dir-replaced-by-file", "dir-removed", "dir-readonly", "cache-files-removed-behind-the-cache"} {
 				emit(c09case{Fault: f, Backend: "file", Shards: 16, Size: sz})
 			}
 		}
@@ -403,6 +454,13 @@ func c09Plan(tier string, seed int64) []core.Batch {
 			}
 			bs = append(bs, core.Batch{Name: part + "-" + tr, TimeoutS: 1800, Args: map[string]any{"part": part, "transport": tr, "stride": stride}})
 		}
+		nb, cnt := 1, 80
+		if tier == "thorough" {
+			nb, cnt = 8, 1500
+		}
+		for i := 0; i < nb; i++ {
+			bs = append(bs, core.Batch{Name: fmt.Sprintf("random-%s-%d", tr, i), TimeoutS: 1800, Args: map[string]any{"part": "random", "transport": tr, "count": cnt, "sub": i}})
+		}
 	}
 	return bs
 }
@@ -412,11 +470,11 @@ func init() {
 		ID:    "C09",
 		Level: "fault_enumeration",
 		Rule: "fault classes x backend x shard count {1,2,3,1024} x body size {0,1,1 KiB,40 kB}: size limit below the body size; cache full with the other entries sharing the storing key's shard; memory_budget_percent=0; empty body; entry deleted while the origin holds the conditional request (304 for a vanished entry); entry deleted between lookup and streaming (hook); entry deleted in the coalesced hand-over window (hook, 3 concurrent clients); entry overwritten between lookup and streaming; the entry is revalidated between the cleanup scan and its removal loop (hook); the first of two coalesced clients hangs up while the origin prepares the answer (cold and stale key); " +
-			"file backend: cache directory replaced by a file / removed / read-only, and RLIMIT_FSIZE = n for n swept over the body length (the cache file write fails after exactly n bytes). The origin is healthy in every case; each client response must be 200 with the complete body. Non-trivial = distinct (fault, backend, shards, size, n, transport).",
+			"file backend: cache directory replaced by a file / removed / read-only, and RLIMIT_FSIZE = n for n swept over the body length (the cache file write fails after exactly n bytes). The origin is healthy in every case; each client response must be 200 with the complete body. A seeded random sample of the whole product (arbitrary body sizes 0..200 kB incl. buffer-size neighbourhoods, shard counts 1..1024, write-failure byte positions) is added to the enumerated cases. Non-trivial = distinct (fault, backend, shards, size, n, transport).",
 		Assumptions: []string{"RLIMIT_FSIZE is process-wide: it is lowered only for the duration of the faulted request; Go ignores SIGXFSZ so the write returns EFBIG", "cases where the origin itself answered with an error are not judged"},
 		Plan:        c09Plan,
 		Run:         c09Run,
 		Parallel:    5,
-		Floors:      map[string]map[string]int64{"quick": {"requests_answered_correctly_under_fault": 150}, "thorough": {"requests_answered_correctly_under_fault": 600}},
+		Floors:      map[string]map[string]int64{"quick": {"requests_answered_correctly_under_fault": 150}, "thorough": {"requests_answered_correctly_under_fault": 20000}},
 	})
 }
